@@ -230,6 +230,7 @@ def run_case(case):
 
                 def note(i):
                     inds.setdefault(i.uid, {'id': i.graph.descriptive_id, 'n_nodes': len(i.graph.nodes),
+                                            'labels': sorted({str(x) for x in i.graph.nodes}),
                                             'valid': bool(i.fitness.valid),
                                             'surrogate': bool(i.metadata.get('surrogate_evaluation'))})
                 h = opt.history
@@ -532,6 +533,10 @@ class Builder:
         if bc:
             bad = sorted(n(u) for u, r in rec['individuals'].items()
                          if r['n_nodes'] % bc[0] == bc[1] and not r['surrogate'])
+        bl = (self.cfg['objective'].get('faults') or {}).get('by_label')
+        if bl:
+            bad = sorted(set(bad) | set(n(u) for u, r in rec['individuals'].items()
+                                        if bl[0] in r['labels'] and not r['surrogate']))
         only = (self.cfg['objective'].get('faults') or {}).get('only_size')
         if only:
             bad = sorted(set(bad) | set(n(u) for u, r in rec['individuals'].items()
@@ -594,6 +599,7 @@ def base_cfg(rng, optimiser, i):
     cfg['scheme'] = ['generational', 'steady_state', 'parameter_free'][i % 3]
     cfg['show_progress'] = bool((i // 3) % 2)
     cfg['timeout_min'] = 5.0
+    cfg.pop('rule', None)       # custom verification rules are another property's business
     return cfg
 
 
@@ -638,6 +644,46 @@ def gen_cases(ctx):
                 cfg['objective']['faults'] = {'only_size': [INITIAL_SIZES[ini][0], kind], 'all_after': [rng.choice([2, 3]), kind]}
             cases.append({'group': 'metric:one_survivor', 'cfg': cfg})
             i += 1
+    # A3. the structural-diversity refill: the check fires every 1 or 2 generations, the population has fewer than
+    # MIN_POP_SIZE distinct structures (tiny pop_size / single initial graph / one mutation kind), and the freshly
+    # created refill individuals fail their evaluation (by index for copies, by class for mutants)
+    refill = [('pop_random_mutation', 1, {'every': 2}), ('evo', 1, {'class': [2, 0]}), ('evo', 2, {'every': 2}),
+              ('pop_random_mutation', 2, {'after': 4}), ('evo', 1, {'after': 6}), ('surrogate', 1, {'every': 3})]
+    if not quick:
+        refill = [(o, d, f) for o in optrun.POPULATIONAL for d in (1, 2)
+                  for f in ({'every': 2}, {'every': 3}, {'class': [2, 0]}, {'class': [2, 1]}, {'class': [3, 1]}, {'after': 4}, {'after': 7})]
+    for rep in range(ctx.budget(1, 1)):
+        for j, (opt, div, f) in enumerate(refill):
+            cfg = base_cfg(rng, opt, i)
+            cfg['diversity_check'] = div
+            cfg['pop_size'] = rng.choice([2, 3])
+            cfg['max_pop_size'] = rng.choice([8, 12])
+            cfg['initial'] = rng.choice(['single', 'chain', 'two'])
+            cfg['num_of_generations'] = rng.choice([3, 4, 5])
+            cfg['early_stopping_iterations'] = None
+            cfg['mutation'] = rng.choice([['single_change'], ['single_add', 'single_drop'], ['single_add', 'single_change', 'single_drop', 'single_edge']])
+            kind = KINDS[i % 3]
+            if 'every' in f:      # the first evaluation (an initial graph) always succeeds
+                faults = {'by_index': {str(x): kind for x in range(1, 160, f['every'])}}
+            elif 'class' in f:
+                faults = {'by_class': [f['class'][0], f['class'][1], kind]}
+            else:
+                faults = {'all_after': [f['after'], kind]}
+            cfg['objective']['faults'] = faults
+            cases.append({'group': 'metric:diversity_refill', 'cfg': cfg})
+            i += 1
+    # tiny search space (two node labels, depth 1-2, single initial graph) + a label that cannot be evaluated:
+    # the refill has to create fresh mutants, some of which fail (configuration family of optrun.collapse_config)
+    if hasattr(optrun, 'collapse_config'):
+        for rep in range(ctx.budget(1, 6)):
+            for opt in (('evo', 'pop_random_mutation', 'evo') if quick else optrun.POPULATIONAL):
+                cfg = optrun.collapse_config(rng, optimiser=opt)
+                cfg['scheme'] = ['generational', 'steady_state', 'parameter_free'][i % 3]
+                cfg['show_progress'] = bool(i % 2)
+                cfg['timeout_min'] = 5.0
+                cfg['num_of_generations'] = min(cfg['num_of_generations'], 4 if quick else 6)
+                cases.append({'group': 'metric:diversity_refill', 'cfg': cfg})
+                i += 1
     # B. persistence faults (populational classes dump; the random-search family never does)
     ios = [{'mode': 'ok'}, {'mode': 'block_from', 'n': 0}, {'mode': 'block_from', 'n': 1}, {'mode': 'block_from', 'n': 2},
            {'mode': 'save_patch', 'n': 0}, {'mode': 'save_patch', 'n': 3}, {'mode': 'save_patch', 'n': 7},
